@@ -13,6 +13,11 @@ TEXT = {
         note="Trusts the sim and the controlled informer; adoption/release succeed (fresh caches) - stale-cache adoption is C04's subject.",
         technique="bounded-exhaustive enumeration of cluster contents x configurations on the real code, independent reference view as oracle",
     ),
+    "C16": dict(
+        level="Bounded-exhaustive model checking of one decorator sync over the full product of target shapes x hook responses x finalizer modes x cache staleness; the stored target after the sync is compared with the target computed from the statement (only named label/annotation keys, status, own finalizer may change), plus zero-request, never-clobber-spec, decorated-iff-selected and bystander-attachment clauses.",
+        note="Trusts the sim (incl. null pruning, status subresource semantics). Key/value alphabet of three keys and two values.",
+        technique="bounded-exhaustive enumeration of inputs on the real code, independent reference model of the decorated target as oracle",
+    ),
 }
 
 PENDING_REASON = "check not built yet in this session (planned in DESIGN.md §4); no claim is made until its check runs clean on the unchanged tree"
